@@ -110,6 +110,7 @@ func init() {
 		}
 		// every program of the limit family under every limit triple: crash/wedge oracle only
 		c.Scenarios = append(c.Scenarios, Scenario{Name: "repository-programs", Count: func(string) int { return len(corpus()) }, Run: c02Repo})
+		c.Scenarios = append(c.Scenarios, Scenario{Name: "dynamic-containers-whose-later-components-do-not-conform", Count: func(string) int { return c02HetCount() }, Run: func(_ string, idx int, r *Result) { c02HetRun(idx, r) }})
 		c.Scenarios = append(c.Scenarios, Scenario{Name: "dynamic-options-into-typed-positions", Count: func(string) int { return c02DynCount() }, Run: func(_ string, idx int, r *Result) { c02DynRun(idx, r) }})
 		c.Scenarios = append(c.Scenarios, Scenario{Name: "resource-limit-lattice", Count: func(string) int { return c09Count() }, Run: func(tier string, idx int, r *Result) {
 			r.failFilter = func(class string) bool {
